@@ -132,7 +132,7 @@ def judge(ctx, files):
 
     def stage_b(f):
         return common.tlc("PoolObs", "PoolObs.cfg", env={"TRACE_FILE": f}, workers=1, timeout=1500, metadir=f + ".metaB")
-    with ThreadPoolExecutor(max_workers=8) as ex:
+    with ThreadPoolExecutor(max_workers=16) as ex:
         ra = list(ex.map(stage_a, files))
         rb = list(ex.map(stage_b, files))
     results = []
@@ -192,7 +192,9 @@ def run(ctx):
                                "projection in harness/pool_rec.py", "TLC"]
     ctx.assumptions += ["exhaustiveness holds for the model constants listed under model_runs; beyond them: sampling",
                         "plain (unlocked) counter updates are treated as atomic at shim granularity"]
+    split = {}
     model_runs(ctx)
+    split["model"] = round(time.time() - t0, 1)
     quick = ctx.tier == "quick"
     # ---- generator: TLC behaviours replayed into the real pool
     nsim = 120 if quick else 1500
@@ -209,14 +211,31 @@ def run(ctx):
         cmds.append(([PY, REC, "replay", bf, of], pyenv()))
         files.append(of)
     # ---- random programs x random schedules on the real pool
-    nrand = 40 if quick else 500
+    nrand = 100 if quick else 1500
     for j in range(nproc):
         of = ctx.path("random%d.json" % j)
         maxmax, nt, nc = [(2, 3, 1), (3, 4, 1), (2, 3, 2), (3, 5, 2)][j % 4]
         cmds.append(([PY, REC, "random", str(nrand), str(ctx.seed * 64 + j), of, str(maxmax), str(nt), str(nc)], pyenv()))
         files.append(of)
+    t1 = time.time()
+    split["sim"] = round(t1 - t0 - split["model"], 1)
     run_parallel(cmds, 1500)
+    split["record"] = round(time.time() - t1, 1)
+    t1 = time.time()
+    alltr = []
+    for f in files:
+        alltr += json.load(open(f))
+        os.remove(f)
+    alltr.sort(key=lambda t: len(t["ev"]))
+    k = 8 if quick else 16
+    files = []
+    for j in range(k):
+        part = alltr[j::k]
+        if part:
+            files.append(ctx.path("traces%d.json" % j))
+            json.dump(part, open(files[-1], "w"))
     results = judge(ctx, files)
+    split["judge"] = round(time.time() - t1, 1)
     # ---- verdicts
     conform = {"replayed_behaviours": 0, "replay_conformant": 0, "recorded_traces": 0, "stageA_accepted": 0}
     accepted = 0
@@ -260,7 +279,9 @@ def run(ctx):
     ctx.cov["traces_validated_against_impl"] = accepted
     ctx.cov["conformance"] = conform
     ctor_contract(ctx)
-    ctx.cov["wall_split"] = {"total": round(time.time() - t0, 1)}
+    split["total"] = round(time.time() - t0, 1)
+    ctx.cov["wall_split"] = split
+    print("wall split:", split)
 
 
 def ctor_contract(ctx):
